@@ -5500,6 +5500,7 @@ evhttp_uri_join(const struct evhttp_uri *uri, char *buf, size_t limit)
 	struct evbuffer *tmp = 0;
 	size_t joined_size = 0;
 	char *output = NULL;
+	int has_authority = 0;
 
 #define URI_ADD_(f)	evbuffer_add(tmp, uri->f, strlen(uri->f))
 
@@ -5516,6 +5517,7 @@ evhttp_uri_join(const struct evhttp_uri *uri, char *buf, size_t limit)
 	}
 #ifndef _WIN32
 	if (uri->unixsocket) {
+		has_authority = 1;
 		evbuffer_add(tmp, "//", 2);
 		if (uri->userinfo)
 			evbuffer_add_printf(tmp, "%s@", uri->userinfo);
@@ -5524,6 +5526,7 @@ evhttp_uri_join(const struct evhttp_uri *uri, char *buf, size_t limit)
 	else
 #endif
 	if (uri->host) {
+		has_authority = 1;
 		evbuffer_add(tmp, "//", 2);
 		if (uri->userinfo)
 			evbuffer_add_printf(tmp,"%s@", uri->userinfo);
@@ -5541,8 +5544,20 @@ evhttp_uri_join(const struct evhttp_uri *uri, char *buf, size_t limit)
 			goto err;
 	}
 
-	if (uri->path)
+	if (uri->path) {
+		if (!has_authority) {
+			/* Without an authority a path starting with "//" would
+			 * be read back as one; without a scheme a first segment
+			 * containing ':' would be read back as the scheme
+			 * (RFC 3986 section 3.3): such components cannot be
+			 * written as a URI. */
+			if (uri->path[0] == '/' && uri->path[1] == '/')
+				goto err;
+			if (!uri->scheme && !path_matches_noscheme(uri->path))
+				goto err;
+		}
 		URI_ADD_(path);
+	}
 
 	if (uri->query) {
 		evbuffer_add(tmp, "?", 1);
@@ -5695,7 +5710,10 @@ evhttp_uri_set_unixsocket(struct evhttp_uri *uri, const char *unixsocket)
 int
 evhttp_uri_set_port(struct evhttp_uri *uri, int port)
 {
-	if (port < -1)
+	/* -1 means "no port"; a port is 0..65535 (the parser produces nothing
+	 * else, and a larger number written by evhttp_uri_join() would not
+	 * parse) */
+	if (port < -1 || port > 65535)
 		return -1;
 	uri->port = port;
 	return 0;
